@@ -261,6 +261,7 @@ func runH3(t *testing.T, prog *hx.Program, dec *simrt.Decider, verbose bool, nse
 		}
 		s.Run(func() {
 			body(h)
+			s.Stop() // nothing is checked after the body: do not idle through timers of leftover tasks up to the horizon
 		})
 	})
 	h.closeAll()
